@@ -368,7 +368,11 @@ func cmdCheck(args []string) int {
 	var vioLines []string
 	incomplete := []string{}
 	post := func(r *harnessResult) {
+		cut := r.timedOut // some path of this harness was not explored to its end
 		for k, n := range r.notes {
+			if strings.HasPrefix(k, "unknown") || strings.HasPrefix(k, "timeout") {
+				cut = true
+			}
 			if strings.HasPrefix(k, "unsupported") || strings.HasPrefix(k, "unwind") || strings.HasPrefix(k, "unknown") || strings.HasPrefix(k, "depth") || strings.HasPrefix(k, "steplimit") || strings.HasPrefix(k, "timeout") {
 				incomplete = append(incomplete, fmt.Sprintf("%s: %s (x%d)", r.cfg.Func, k, n))
 			}
@@ -440,9 +444,9 @@ func cmdCheck(args []string) int {
 			for _, label := range r.cfg.Covers {
 				cw, ok := r.covers[r.cfg.Func+"|"+label]
 				if !ok {
-					if r.timedOut {
-						// the exploration was cut by its budget: a missing witness says nothing
-						fmt.Printf("INCOMPLETE %s: cover label %q not reached before the budget ran out\n", r.cfg.Func, label)
+					if cut {
+						// the exploration was cut (budget, solver timeout): a missing witness says nothing
+						fmt.Printf("INCOMPLETE %s: cover label %q not reached by the part that was explored\n", r.cfg.Func, label)
 						continue
 					}
 					fmt.Printf("VACUOUS %s: cover label %q not reached on any feasible path\n", r.cfg.Func, label)
